@@ -242,3 +242,40 @@ Definition c19_env_row (callable : bool) (args : list atom) (kw : option kwargs)
     | _, _ => false
     end; true; true; true; true; true; true; true;
     ok_envelope callable args kw o ].
+
+(* ---- sequences of task creations from one stateful callable ----
+   a function value is identified by the state it carries (an integer the callable reports
+   as part of its result); observed per step: the state the DECODED callable carries, the
+   decoded arguments, and whether calling the decoded triple gave the result that calling
+   the original gave at encode time *)
+Definition seq_obs := (perr + (Z * list atom * option kwargs * bool))%type.
+
+Definition transport_seq_id (decor : bool) (f_dec : Z) (steps : list (step Z)) :=
+  transport_seq Z Z (envelope Z) (fun f => f) (fun b => Some b) (fun e => e) (fun w => Some w)
+                decor true f_dec steps.
+
+Definition ok_envelope_step (s : step Z) (o : seq_obs) : bool :=
+  match o with
+  | inr (f', a, k, same) =>
+      same && (f' =? st_f s) && eqb_list atom_eqb a (st_args s)
+      && eqb_option kwargs_eqb k (Some (kw_or_empty (st_kw s)))
+  | inl _ => false
+  end.
+
+Fixpoint forallb2 {A B} (p : A -> B -> bool) (l : list A) (m : list B) : bool :=
+  match l, m with
+  | [], [] => true
+  | x :: l', y :: m' => p x y && forallb2 p l' m'
+  | _, _ => false
+  end.
+
+Definition c19_envseq_row (decor : bool) (f_dec : Z) (steps : list (step Z)) (obs : list seq_obs)
+  : list bool :=
+  [ forallb2 (fun m o => match m, o with
+                         | inl e, inl e' => perr_eqb e e'
+                         | inr (f', a, k), inr (f'', a', k', _) =>
+                             (f' =? f'') && eqb_list atom_eqb a a' && eqb_option kwargs_eqb k k'
+                         | _, _ => false
+                         end) (transport_seq_id decor f_dec steps) obs;
+    true; true; true; true; true; true; true;
+    forallb2 ok_envelope_step steps obs ].
